@@ -9,7 +9,7 @@ Fixpoint rup_loop (fuel : nat) (result input : N) : N :=
   | O => result
   | S f => if result <? input then rup_loop f (2 * result) input else result
   end.
-Definition round_up_pow2 (input : N) : N := rup_loop (S (N.size_nat input)) 1 input.
+Definition round_up_pow2 (input : N) : N := rup_loop (S (N.to_nat (N.size input))) 1 input.
 
 (* RoundDownPowerOfTwo: error iff input <= 0 (Z argument because Go's is signed) *)
 Definition round_down_pow2 (input : Z) : outcome N :=
@@ -54,7 +54,7 @@ Fixpoint mmr_tail (fuel : nat) (total : N) : list N :=
     let p := 2 ^ N.log2 total in p :: mmr_tail f (total - p)
   end.
 Definition mmr_sizes (total max : N) : list N :=
-  repeat max (N.to_nat (total / max)) ++ mmr_tail (N.size_nat max) (total mod max).
+  repeat max (N.to_nat (total / max)) ++ mmr_tail (N.to_nat (N.size max)) (total mod max).
 
 (* BlobSharesUsedNonInteractiveDefaults(cursor, threshold, lens...) *)
 Fixpoint blob_shares_used_go (cursor threshold : N) (lens : list N) : N * list N :=
